@@ -66,6 +66,8 @@ fn stress(seed: u64, millis: u64) {
                     let kind = r % 10; let i = ((r >> 8) % (want.len() as u64 + 2)) as u32;
                     let res = catch_unwind(AssertUnwindSafe(|| match kind { 0 => { let c = sv.line_count(); if c == want.len() { None } else { Some(format!("line_count={} want {}", c, want.len())) } }
                         1 => { let ls: Vec<&str> = sv.lines().collect(); if ls == want.iter().map(|s| s.as_str()).collect::<Vec<_>>() { None } else { Some(format!("lines() gave {} lines, want {}", ls.len(), want.len())) } }
+                        // a clone taken while others are indexing is a view of the same text: it answers like a fresh one (outside the property's literal call list; kept as a cheap extra)
+                        2 => { let c = (*sv).clone(); let g = c.get_line(i).map(|x| x.to_string()); let w = want.get(i as usize).cloned(); let n = c.line_count(); if g == w && n == want.len() { None } else { Some(format!("clone: get_line({})={:?} want {:?}, line_count={} want {}", i, g, w, n, want.len())) } }
                         _ => { let g = sv.get_line(i); let w = want.get(i as usize).map(|s| s.as_str()); if g == w { None } else { Some(format!("get_line({})={:?} want {:?}", i, g, w)) } } }));
                     PROGRESS.fetch_add(1, Ordering::Relaxed);
                     match res { Ok(None) => {} Ok(Some(e)) => errs.push(format!("thread{} {}", t, e)), Err(_) => errs.push(format!("thread{} call kind {} index {} panicked", t, kind, i)) } }
